@@ -21,9 +21,9 @@ def suiteOf (name : String) : Option Suite :=
   match name with
   | "units" => some (statelessSuite unitsStep)
   | "param" => some { σ := ParamState, init := {}, step := paramStep }
-  | "transport" => some { σ := Option K.Transport, init := none, step := transportStep }
-  | "psm" => some { σ := PsmSuiteState, init := {}, step := psmStep }
-  | "static" | "static_ood" => some { σ := StaticSuiteState, init := {}, step := staticStep }
+  | "transport" => some { σ := Option K.Transport, init := none, step := Static.transportStep }
+  | "psm" => some { σ := Static.PsmSuiteState, init := {}, step := Static.psmStep }
+  | "static" | "static_ood" => some { σ := Static.StaticSuiteState, init := {}, step := Static.staticStep }
   | _ => none
 
 def tokens (line : String) : List String :=
